@@ -1,9 +1,12 @@
 import Rtcm.Lemmas.Chunk
 import Rtcm.Lemmas.ChunkTerm
+import Rtcm.Lemmas.ChunkSock
 /-
   C12 — chunked transfer decoding is independent of segmentation.
   `dec` is the per-chunk transform (identity, gzip, zlib or raw deflate — the theorem holds for
   every function, the real zlib is exercised by the correspondence run).
+  `C12_reads_deliver_decoded`: what `read()` *delivers* on such a connection (not only what
+  accumulates in the buffer) is the decoded byte string, for every read-size sequence.
   Both stream forms of the property are covered: without the terminating zero chunk
   (`C12_segmentation_independent`) and with it (`C12_with_terminator`).
 -/
@@ -62,6 +65,31 @@ theorem C12_terminator_irrelevant (dec : Bytes → Bytes) (cs : List (Bytes × B
     (h₁ : segs₁.flatten = body cs) (h₂ : segs₂.flatten = body cs ++ z ++ CRLF ++ CRLF) :
     (segs₁.foldl (feedSeg dec) ([], [])).2 = (segs₂.foldl (feedSeg dec) ([], [])).2 := by
   rw [C12_segmentation_independent dec cs hok segs₁ h₁, C12_with_terminator dec cs hok z hz segs₂ h₂]
+
+/-- **What `read()` delivers.**  A chunked connection whose peer sends a well-formed chunked body
+    in any segmentation (non-empty receive results, any positive buffer size): for every sequence
+    of read sizes, the results are exactly those of reading the concatenation of the decoded chunk
+    bodies — the next `n` bytes when that many remain, nothing otherwise. -/
+theorem C12_reads_deliver_decoded (dec : Bytes → Bytes) (cs : List (Bytes × Bytes))
+    (hok : ∀ hc ∈ cs, ChunkOK hc) (sched : List Recv) (bufsize : Nat) (hff : FaultFree sched) (hb : 0 < bufsize)
+    (hbody : pendingData sched = body cs) (ns : List Nat) :
+    Sock.reads dec (Sock.init dec sched true bufsize) ns = specReads (decAll dec cs) ns :=
+  reads_exact (exact_chunked dec cs hok) ns _ _ (cstate_init hok sched bufsize hff hb hbody)
+
+/-- hence two segmentations of the same chunked body are indistinguishable through `read()` -/
+theorem C12_reads_segmentation_independent (dec : Bytes → Bytes) (cs : List (Bytes × Bytes))
+    (hok : ∀ hc ∈ cs, ChunkOK hc) (s₁ s₂ : List Recv) (b₁ b₂ : Nat) (h₁ : FaultFree s₁) (h₂ : FaultFree s₂)
+    (hb₁ : 0 < b₁) (hb₂ : 0 < b₂) (e₁ : pendingData s₁ = body cs) (e₂ : pendingData s₂ = body cs) (ns : List Nat) :
+    Sock.reads dec (Sock.init dec s₁ true b₁) ns = Sock.reads dec (Sock.init dec s₂ true b₂) ns := by
+  rw [C12_reads_deliver_decoded dec cs hok s₁ b₁ h₁ hb₁ e₁, C12_reads_deliver_decoded dec cs hok s₂ b₂ h₂ hb₂ e₂]
+
+/-- and the reader over the chunked connection returns the messages of the decoded byte string -/
+theorem C12_reader_over_chunked (dec : Bytes → Bytes) (cs : List (Bytes × Bytes))
+    (hok : ∀ hc ∈ cs, ChunkOK hc) (sched : List Recv) (bufsize : Nat) (hff : FaultFree sched) (hb : 0 < bufsize)
+    (hbody : pendingData sched = body cs) (T : Tables) (o : Opts) (resume : Bool) :
+    frames (run (sockOps dec) T o resume (Sock.init dec sched true bufsize))
+      = frames (run fileOps T o resume ⟨decAll dec cs, []⟩) :=
+  reader_exact_eq_file (exact_chunked dec cs hok) T o resume _ _ (cstate_init hok sched bufsize hff hb hbody)
 
 example : SizeLine [48] 0 := ⟨by decide, by decide⟩                       -- "0"
 example : SizeLine [48, 48, 48] 0 := ⟨by decide, by decide⟩               -- "000"
